@@ -271,11 +271,18 @@ func applyOpCtx(ctx *objCtx, s entities.Set, o setOp, forceForm string) string {
 			}
 			switch form {
 			case "1":
-				err = s.AddRecord(els, o.id)
+				// the copying add paths take a scratch slice which the caller overwrites right
+				// after the call, as a loop that reuses one slice per record does: the record
+				// must have its own list of the element objects
+				tmp := append([]entities.InfoElementWithValue(nil), els...)
+				err = s.AddRecord(tmp, o.id)
+				scribble(tmp)
 			case "2":
-				err = s.AddRecordV2(els, o.id)
+				err = s.AddRecordV2(els, o.id) // documented to adopt the slice
 			default:
-				err = s.AddRecordWithExtraElements(els, extra, o.id)
+				tmp := append([]entities.InfoElementWithValue(nil), els...)
+				err = s.AddRecordWithExtraElements(tmp, extra, o.id)
+				scribble(tmp)
 			}
 		case 'L':
 			s.UpdateLenInHeader()
@@ -357,4 +364,13 @@ func buildSet(ops []setOp) (entities.Set, []string) {
 		res = append(res, applyOp(s, o, ""))
 	}
 	return s, res
+}
+
+var scribbleIE = entities.NewInfoElement("scribble", 31999, entities.Unsigned8, 0, 1)
+
+// scribble overwrites a caller-owned slice after it was handed to a copying add.
+func scribble(els []entities.InfoElementWithValue) {
+	for i := range els {
+		els[i] = entities.NewUnsigned8InfoElement(scribbleIE, 0xEE)
+	}
 }
